@@ -43,6 +43,9 @@ def c01(tier):
     s = run.seed
     defs = F.curated() + F.random_family(1000 + s, sizes(tier, 120, 1500), nmax=sizes(tier, 4, 5))
     defs += F.random_family(2000 + s, sizes(tier, 40, 400), nmax=4, publish=True)
+    # every two-task definition of the grammar (1,012): all of them in thorough, a seeded third in quick
+    x2 = F.exhaustive_two()
+    defs += x2 if tier != "quick" else random.Random(s).sample(x2, 330)
     env = {"max_nodes": sizes(tier, 1500, 6000)}
     run.add_mc(F.curated() + F.random_family(3000 + s, sizes(tier, 60, 600), nmax=4), ["C01"])
     run.add_jobs(jobs_for(defs, env, s, ("yaql", "jinja"), tok="visit"))
@@ -57,6 +60,8 @@ def c02(tier):
     run = P.Run("C02", tier, ["C02_"])
     s = run.seed
     defs = F.curated() + F.random_family(1100 + s, sizes(tier, 60, 600), nmax=4)
+    x2 = F.exhaustive_two()
+    defs += x2 if tier != "quick" else random.Random(s).sample(x2, 150)
     run.add_jobs(jobs_for(defs, {"pause": 1, "cancel": 1, "max_nodes": sizes(tier, 1500, 5000)}, s))
     e2 = F.with_e2(F.curated()[:10] + F.curated_items()[:11])
     run.add_jobs(jobs_for(e2, {"pause": 1, "cancel": 1, "sample": sizes(tier, 3, 5), "max_nodes": sizes(tier, 1200, 6000)}, s))
